@@ -434,8 +434,10 @@ def _keygen(func, ignored, *args, **kwds):
         return user_args, kwds.copy()
     # a keyword named like a positional-only parameter (f(1, x=2) for
     # def f(x, /, **kwds)) is one of the varkwds, and not that parameter
-    code = getattr(func, '__code__', None)
-    posonly = explicitly_named[:getattr(code, 'co_posonlyargcount', 0)]
+    call = func if hasattr(func, '__code__') else getattr(func, '__call__', None)
+    posonly = getattr(getattr(call, '__code__', None), 'co_posonlyargcount', 0)
+    if posonly and inspect.ismethod(call): posonly -= 1 # 'self' is not named
+    posonly = explicitly_named[:posonly]
     if posonly:
         kwds = dict(('/'+k if k in posonly else k, v) for (k,v) in kwds.items())
     # mix-in the function's defaults to the user provided kwds
